@@ -299,7 +299,27 @@ def check_lp_loops(ck, P, rid):
         ok = ok and cond.k == "BinaryOperator" and cond.op == "<" and X.show(cond.children[0]) == iv[0].name and _res(cond.children[1]) == "lid_thread_end"
         ok = ok and inc.k == "UnaryOperator" and inc.op == "++" and X.show(inc.children[0]) == iv[0].name
         if not ok:
-            ck.violated(rid, inst, l.where, "%s does not iterate exactly [lid_thread_first, lid_thread_end): %s; %s; %s" % (fname, X.show(iv[0]) if iv else "?", X.show(cond), X.show(inc)), cfg)
+            # the same range walked with a pointer: for(lp = &lps[first]; lp != / < &lps[end]; ++lp) callee(lp)
+            ptr_ok = bool(iv) and iv[0].children and _res(iv[0].children[0]).replace(" ", "") in ("&lps[lid_thread_first]", "(lps+lid_thread_first)", "lps+lid_thread_first")
+            ptr_ok = ptr_ok and cond.k == "BinaryOperator" and cond.op in ("<", "!=") and X.show(cond.children[0]) == iv[0].name and \
+                _res(cond.children[1]).replace(" ", "") in ("&lps[lid_thread_end]", "(lps+lid_thread_end)", "lps+lid_thread_end")
+            ptr_ok = ptr_ok and inc.k == "UnaryOperator" and inc.op == "++" and X.show(inc.children[0]) == iv[0].name
+            if ptr_ok:
+                calls = [c for c in f.calls(callee) if c.is_inside(l)]
+                body_entry, condB = Q.loop_body_entry(f, l)
+                once = len(calls) == 1 and X.show(X.strip(X.callee_args(calls[0])[0])) == iv[0].name and not f.cfg.escapes(
+                    f.cfg.edge_point(body_entry), {calls[0].id}, goal="none", goal_ids={e.id for e in condB.elems} | {x.id for x in inc.walk()})
+                if once:
+                    ck.holds(rid, inst, l.where, "walks &lps[lid_thread_first] .. &lps[lid_thread_end] with a pointer, %s once per element" % callee, cfg)
+                else:
+                    ck.violated(rid, inst, l.where, "%s is not called exactly once per element of the thread's range" % callee, cfg)
+                continue
+            index_form = bool(iv) and iv[0].d.get("ti") and cond.k == "BinaryOperator" and any(x.k == "DeclRefExpr" and x.name == iv[0].name for x in cond.walk()) and \
+                inc.k in ("UnaryOperator", "CompoundAssignOperator") and any(x.k == "DeclRefExpr" and x.name == iv[0].name for x in inc.walk())
+            if index_form:
+                ck.violated(rid, inst, l.where, "%s does not iterate exactly [lid_thread_first, lid_thread_end): %s; %s; %s" % (fname, X.show(iv[0]) if iv else "?", X.show(cond), X.show(inc)), cfg)
+            else:
+                ck.inconclusive(rid, inst, l.where, "the loop over the thread's LPs has a form that was not recognised: %s; %s" % (X.show(cond)[:50], X.show(inc)[:30]), cfg)
             continue
         calls = [c for c in f.calls(callee) if c.is_inside(l)]
         g = f.cfg
